@@ -526,10 +526,17 @@ def F2(ctx: Ctx) -> RuleResult:
                         dup_ok = True
             if flow != 'end':
                 r.fail('metadata:loop', 'the annotation loop can stop early', fi.where)
+        immediate = False
+        for rg, exc in lp.raises:
+            if any(isinstance(t, Op) and t.op == 'in' and p and isinstance(t.args[1], DictT) for t, p in norm_guards(rg)) and 'HplSyntaxError' in repr(exc):
+                immediate = True
+        if immediate:
+            dup_ok = True
         # the duplicate test must be unconditional w.r.t. the key kind: some path where `key in metadata` is not tested -> hole
         for pg, flow, binds, effs in lp.paths:
             tested = any(isinstance(t, Op) and t.op == 'in' and isinstance(t.args[1], DictT) for t, p in norm_guards(pg))
-            if not tested:
+            stores = any(isinstance(e, Store) for e in effs)
+            if not tested and stores:
                 r.fail('metadata:dup-test', f'on path [{guards_repr(norm_guards(pg))}] an annotation is stored without testing whether its key was already seen', fi.where)
                 dup_ok = False
     if raised and ok_raise and dup_ok and store_ok:
